@@ -38,10 +38,14 @@ Definition null_count_view (a : parr) (s l : nat) : nat :=
   | TNull => l
   | _ => match p_nulls a with None => 0 | Some nb => count_false (bits_range (nb_bytes nb) (nb_off nb + s) l) end
   end.
-Definition validity_view (a : parr) (s l : nat) : list N :=
+(* An ArrayData::slice keeps the (sliced) null buffer; an Array-level slice followed by into_data() drops a null
+   buffer without nulls (ArrayDataBuilder filters null_count = 0), and the writer then emits all-ones bytes *)
+Definition validity_view (a : parr) (s l : nat) (proper : bool) : list N :=
   match p_nulls a with
   | None => repeat 255%N (ceil8 l)
-  | Some nb => bit_slice (nb_bytes nb) (nb_off nb + s) l
+  | Some nb =>
+      if proper && Nat.eqb (count_false (bits_range (nb_bytes nb) (nb_off nb + s) l)) 0 then repeat 255%N (ceil8 l)
+      else bit_slice (nb_bytes nb) (nb_off nb + s) l
   end.
 
 (* RunEndBuffer::get_physical_index(x) with logical offset folded in: number of run ends <= x *)
@@ -56,7 +60,7 @@ Fixpoint w_arr (fuel : nat) (v5 : bool) (a : parr) (s l : nat) (proper : bool) {
   let ty := p_ty a in
   let off := p_off a + s in
   let node := (l, null_count_view a s l) in
-  let pre : wout := ([node], if has_validity ty v5 then [validity_view a s l] else []) in
+  let pre : wout := ([node], if has_validity ty v5 then [validity_view a s l proper] else []) in
   let kid (i : nat) := nth i (p_kids a) (PArr TNull 0 0 None [] []) in
   match ty with
   | TNull => pre
